@@ -6,8 +6,10 @@
        (the CONSTANT sets); the value operators below (SizeCat, ModeBits, OwnerOf, MtimeOf, XattrCat, TargetLen, DevOf,
        NameLen) give the concrete numbers -- they are the single source of truth, the concretiser gen/tree.py reads
        them from the JSON emitted by Emit_TreeGen and never invents a value.
-       The builder (Init / Next) adds one node in four micro steps (kind, place, content, meta) so that TLC's
-       simulation mode picks kinds and content classes uniformly.
+       The builder (Init / Next) picks a size goal in MinNodes..MaxNodes, then adds one node in four micro steps (kind, place,
+       content, meta) so that TLC's simulation mode picks kinds and content classes evenly; KindSeq may repeat a kind (its
+       weight under simulation); Finish declares the tree complete (phase "done": Emit_TreeGen prints it exactly once).
+       A directory may be a mount point (mnt = 1, at most MaxMounts): it and everything below live on another device.
    (2) The property-level statement Expect(t): what an exact copy of t looks like (one image inode per source inode,
        hard-link groups = source inodes, all non-type mode bits, owner, mtime, size, holes, xattrs, link targets).
    (3) The implementation-shaped model PopModel(t, src, cfg): misc/create_inode.c:__populate_fs() -- nodes are visited in
